@@ -454,7 +454,8 @@ func ruleC01ProducerExit(c *Ctx) {
 			}
 			rv := lg.VertexOf(r)
 			_, inClosedArm := lit.ParentOf(r).(*ast.CommClause)
-			afterSend := lg.Dominates(sends[0], rv) && hasAtom(lg.GuardsAt(rv), func(a Atom) bool { return AtomSaysNil(a, false, func(e ast.Expr) bool { return exprStr(e) == "err" }) })
+			decErr := lit.VarFromCallNamed("Decode", 0)
+			afterSend := lg.Dominates(sends[0], rv) && hasAtom(lg.GuardsAt(rv), func(a Atom) bool { return AtomSaysNil(a, false, func(e ast.Expr) bool { return lit.IsObjExpr(e, decErr) }) })
 			c.Check(inClosedArm || afterSend, "ioConn-reader:return#"+itoa(i), lit, r, "the reader goroutine exits only on the closed arm or after the read error has been handed to Read (so the session observes the failure)")
 		}
 	}
